@@ -27,6 +27,7 @@ import Distill.Model.ImageExtract
 import Distill.Model.OpenGraph
 import Distill.Model.SchemaOrg
 import Distill.Model.MarkupPage
+import Distill.Model.Srcset
 namespace Distill.Slices
 open Distill Distill.Proto
 
@@ -294,6 +295,20 @@ def wordcounterSlice : P String := do
   let c := selectCounter sample.toList
   let name := match c with | .full => "Full" | .letter => "Letter" | .fast => "Fast"
   pure s!"{name} {c.count text.toList}"
+
+/-- `srcset value n (question answer)*` → URLs `GetSrcSetURLs` returns | what `makeSrcSetAbsolute`
+writes, `CreateAbsoluteURL` answered from the table (a question not in the table is reported, never
+defaulted) -/
+def srcsetSlice : P String := do
+  let v ← str
+  let n ← nat
+  let tbl ← many n (do let q ← str; let a ← str; pure (q, a))
+  let abs : List Char → List Char := fun q =>
+    match tbl.lookup (String.ofList q) with
+    | some a => a.toList
+    | none => "ATOM-MISSING".toList
+  let us := (Srcset.urls v.toList).map (fun u => hex (String.ofList u))
+  pure s!"{" ".intercalate us} | {hex (String.ofList (Srcset.rewrite abs v.toList))}"
 
 def attrsStr (as : List Attr) : String := " ".intercalate (as.map (fun a => s!"{hex a.key}={hex a.val}"))
 
@@ -639,6 +654,7 @@ def dispatch (slice : String) : Option (P String) :=
   | "builder" => some builderSlice
   | "countwords" => some countWordsSlice
   | "wordcounter" => some wordcounterSlice
+  | "srcset" => some srcsetSlice
   | "strip" => some stripSlice
   | "title" => some titleSlice
   | "textblocks" => some textblocksSlice
